@@ -454,18 +454,46 @@ Fixpoint oracle_walk (pr : oparams) (k : Z) (h : Z) (ot : otrack) (prev : snap) 
   | _, _ => []
   end.
 
-Fixpoint deleg_walk (k : Z) (d : list (Z * Z)) (es : list event) (os : list iobs) : list (Z * Z) :=
+(* authorisation and completeness of the oracle handlers, from the implementation's trace alone:
+   d = latest accepted consent per validator, pv = latest accepted unopened prevote per validator (emptied by the tally),
+   prev = the snapshot of the previous end-block (bonded status during this block, supported chains).
+   75 accepted although unauthorised; 76 an authorised, in-window prevote with the current round id was rejected;
+   77 an authorised vote with the current round id and well-formed entries that opens the validator's prevote was rejected *)
+Definition active_val (prev : snap) (val : Z) : bool :=
+  match find_val (sn_vals prev) val with Some v => v_bonded v | None => false end.
+
+Fixpoint auth_walk (p : Z) (k h : Z) (d : list (Z * Z)) (pv : list (Z * bytes)) (prev : snap)
+                   (es : list event) (os : list iobs) : list (Z * Z) :=
   match es, os with
   | e :: es', o :: os' =>
       match e, o with
-      | EvOTx (MConsent val feeder), ITx COk _ => deleg_walk (k + 1) (zinsert val feeder d) es' os'
-      | EvOTx (MPrevote feeder val _ _), ITx COk _ | EvOTx (MVote feeder val _ _ _), ITx COk _ =>
-          (if dtrack_ok d feeder val then [] else [(k, 75)]) ++ deleg_walk (k + 1) d es' os'
-      | _, _ => deleg_walk (k + 1) d es' os'
+      | EvBegin _, _ => auth_walk p (k + 1) (h + 1) d pv prev es' os'
+      | EvEnd _, IEnd _ _ (Some sn) => auth_walk p (k + 1) h d (if is_tally h p then [] else pv) sn es' os'
+      | EvOTx (MConsent val feeder), ITx COk _ => auth_walk p (k + 1) h (zinsert val feeder d) pv prev es' os'
+      | EvOTx (MPrevote feeder val commit rid), ITx cl _ =>
+          let auth := dtrack_ok d feeder val in
+          let should := auth && active_val prev val && (rid =? rstart h p) && (h <=? prevote_end h p) in
+          match cl with
+          | COk => (if auth then [] else [(k, 75)]) ++ auth_walk p (k + 1) h d (zinsert val commit pv) prev es' os'
+          | _ => (if should then [(k, 76)] else []) ++ auth_walk p (k + 1) h d pv prev es' os'
+          end
+      | EvOTx (MVote feeder val vd salt rid), ITx cl _ =>
+          let auth := dtrack_ok d feeder val in
+          let should := auth && active_val prev val && (rid =? rstart h p)
+                        && validate_vote_data vd (s_supported (sn_s prev))
+                        && match zlookup val pv with Some c => bytes_eqb c (preimage salt vd) | None => false end in
+          match cl with
+          | COk => (if auth then [] else [(k, 75)]) ++ auth_walk p (k + 1) h d (zremove val pv) prev es' os'
+          | _ => (if should then [(k, 77)] else []) ++ auth_walk p (k + 1) h d pv prev es' os'
+          end
+      | _, _ => auth_walk p (k + 1) h d pv prev es' os'
       end
   | _, _ => []
   end.
-Definition check_C03_chain := failing (fun c => deleg_walk 0 (o_deleg (c_o (cs_init c))) (cs_events c) (cs_obs c)).
+Definition auth_check (c : case) : list (Z * Z) :=
+  auth_walk (op_period (o_params (c_o (cs_init c)))) 0 (c_h (cs_init c)) (o_deleg (c_o (cs_init c)))
+            (o_prevotes (c_o (cs_init c))) (snap_of_init (cs_init c)) (cs_events c) (cs_obs c).
+Definition check_C03_chain := failing (fun c => codes_in 75 75 (auth_check c)).
 
 Definition oracle_check (c : case) : list (Z * Z) :=
   oracle_walk (o_params (c_o (cs_init c))) 0 (c_h (cs_init c)) (mkOT [] []) (snap_of_init (cs_init c)) [] []
@@ -474,7 +502,7 @@ Definition oracle_check (c : case) : list (Z * Z) :=
 Definition check_oracle := failing oracle_check.
 Definition check_C05 := failing (fun c => codes_in 61 62 (oracle_check c)).
 Definition check_C10 := failing (fun c => codes_in 61 64 (oracle_check c)).
-Definition check_C08 := failing (fun c => codes_in 71 79 (oracle_check c)).
+Definition check_C08 := failing (fun c => codes_in 71 79 (oracle_check c ++ auth_check c)).
 Definition check_C14 := failing (fun c => codes_in 90 99 (oracle_check c)).
 
 (* ---------- C06: panics observed on the implementation ----------
